@@ -370,7 +370,7 @@ fn evidence(
             "extra": extra,
         },
         "assumptions": [
-            "the simulated file system resolves paths like the kernel (no symlinks); checked against the real file system by the thorough tier's differential stratum, not proved",
+            "the simulated file system resolves paths like the kernel (symbolic links followed, no hard links); checked against the real file system by the thorough tier's differential stratum, not proved",
             "std::path and std::env::split_paths are shared by model and code under test",
             "the oq3_syntax parser is trusted by the model for locating top-level include statements and for each file's own diagnostics",
             "the as-if oracle is relational: defects that affect the included and the flattened program identically are invisible to it",
